@@ -125,8 +125,19 @@ class Scenario:
                 k = rng.choice([k + 1, k + rng.randrange(1, 20), max(k + 1, b - 1), max(k + 1, b), max(k + 1, b + 1)])
             ks.append(k)
         dup = bool(self.spec) and rng.random() < 0.12
+        back = False
         if dup:
             ks = [rng.choice(sorted(self.spec))]
+        elif self.spec and rng.random() < 0.25:
+            # back-fill: indices below everything written so far (an earlier file or the head of the first
+            # one); readers that have already answered queries must report them as well
+            lo = min(self.spec)
+            Tlo = ((lo * d // n) // fc) * fc
+            cands = [lo - 1, lo - rng.randrange(1, 20), cdiv(Tlo * n, d) - 1, cdiv((Tlo - fc) * n, d), cdiv((Tlo - 3 * fc) * n, d) + 1]
+            cands = [c for c in cands if 0 < c < lo]
+            if cands:
+                ks = sorted(set(rng.sample(cands, min(len(cands), m))))
+                back = True
         tags = list(range(self.tag, self.tag + len(ks)))
         self.tag += len(ks)
         form = rng.choice(["dict", "list"])
@@ -152,12 +163,12 @@ class Scenario:
                 break
             self.spec[kk] = t
             self.has_opt[kk] = opt
-        if not dup:
+        if not dup and not back:
             self.k = ks[-1]
         self.mops += [0, len(ks)] + [x for kk, t in zip(ks, tags) for x in (kk, t)]
         self.iobs += [0, ok]
         self.res.case(("mdwrite", self.n, self.d, self.fc, tuple(ks)))
-        self.res.count("op:md-write" + (":duplicate" if dup else ""))
+        self.res.count("op:md-write" + (":duplicate" if dup else ":back-fill" if back else ""))
         if ok != exp_ok:
             self.res.violation("write-status-wrong", "metadata write accepted a duplicate / refused new indices",
                                self.replay_input("write"), exp_ok, ok)
